@@ -176,3 +176,58 @@ Example C02_nonvacuous_cq :
   | None => False
   end.
 Proof. vm_compute. repeat split. Qed.
+
+
+(* ---------------------------------------------------------------------------
+   C02 for the runtime over the OTHER future event set (BinaryHeap + zero queue,
+   des built without `cqueue`; coq/Runtime/HeapSet.v, HeapRt.v), for EVERY oracle
+   resolving BinaryHeap's unspecified order among equal timestamps.  The proofs
+   are those of coq/Runtime/GenericProps.v -- the runtime over an abstract event
+   set satisfying six facts -- instantiated with the heap backend
+   (coq/Runtime/HeapSetProps.v). *)
+From DesVerif Require Import Runtime.HeapSet Runtime.Generic Runtime.GenericProps Runtime.HeapRt Runtime.HeapSetProps.
+
+Theorem C02_holds_over_heap :
+  forall (orc : N -> hint) (S B : N) (L : lim) (pre : list (N * N)) (P : prog) (ops : list sop),
+  exists s1 xs sf,
+    hexec_sched orc P (hboot S B L pre) ops = (Some s1, xs) /\ ~ In OFuel xs /\ hdispatch_all orc P s1 = Some sf /\
+    forall s, s = hboot S B L pre \/ s = s1 \/ s = sf ->
+      let rem := gremaining hs hint hp_fetch hp_len orc s in
+      S <= gclock hs s /\
+      StronglySorted N.le (S :: map snd (glog hs s)) /\
+      gclock hs s = last (map snd (glog hs s)) S /\
+      hlast (gfes hs s) = gclock hs s /\
+      gitr hs s = N.of_nat (length (glog hs s)) /\
+      hp_len (gfes hs s) = N.of_nat (length rem) /\
+      Forall (fun r => a_ok r = (a_now r <=? a_time r)) (gadds hs s) /\
+      Permutation (accepted (gadds hs s)) (handled (glog hs s) ++ rem) /\
+      (forall inh tm l, glast_ok hs (gadd_event hs hp_add inh s tm l) = (gclock hs s <=? tm) /\
+                        gclock hs (gadd_event hs hp_add inh s tm l) = gclock hs s /\
+                        (tm < gclock hs s -> gfes hs (gadd_event hs hp_add inh s tm l) = gfes hs s)).
+Proof.
+  intros orc S B L pre P ops. destruct (heap_runtime_good orc S B L pre P ops) as [s1 [xs [sf [H1 [H2 [H3 [G0 [G1 Gf]]]]]]]].
+  exists s1, xs, sf. split; [exact H1|]. split; [exact H2|]. split; [exact H3|].
+  intros s [ -> | [ -> | -> ] ]; assumption.
+Qed.
+Print Assumptions C02_holds_over_heap.
+
+(* one dispatch: the event was pending with exactly the timestamp that now()
+   shows inside its handler, and that time is not before the previous now() *)
+Theorem C02_heap_now_is_event_time :
+  forall (orc : N -> hint) S B L pre P ops s1 xs s',
+  hexec_sched orc P (hboot S B L pre) ops = (Some s1, xs) ->
+  gdispatch_event hs hint hp_add hp_peek hp_fetch orc P s1 = inl s' ->
+  exists t l, In (t, l) (hpend (gfes hs s1)) /\ gclock hs s1 <= t /\ gclock hs s' = t /\ glog hs s' = glog hs s1 ++ [(l, t)].
+Proof. exact heap_dispatch_now. Qed.
+Print Assumptions C02_heap_now_is_event_time.
+
+Example C02_heap_nonvacuous :
+  let P := [[(0, 0, 1); (1, 3, 2)]] in
+  let orc := fun (_ : N) (cs : list (N * N)) => pred (length cs) in
+  let s0 := hboot 10 5 LNone [(5, 0); (12, 7); (10, 0); (9, 0); (12, 8)] in
+  map a_ok (gadds hs s0) = [false; true; true; false; true] /\
+  match hdispatch_all orc P s0 with
+  | Some sf => glog hs sf = [(0, 10); (1, 10); (8, 12); (7, 12)] /\ gclock hs sf = 12 /\ hlast (gfes hs sf) = 12
+  | None => False
+  end.
+Proof. vm_compute. repeat split. Qed.
